@@ -73,7 +73,12 @@ def decompose_qpd_instructions(
         # If mapping is specified, set each gate's mapping
         for i, decomp_gate_ids in enumerate(instruction_ids):
             for gate_id in decomp_gate_ids:
-                circuit.data[gate_id].operation.basis_id = map_ids[i]
+                # One gate object may sit at several positions of the circuit, so
+                # give each position its own copy before selecting its map
+                inst = circuit.data[gate_id]
+                operation = inst.operation.copy()
+                operation.basis_id = map_ids[i]
+                circuit.data[gate_id] = inst.replace(operation=operation)
     else:
         # Without map IDs, every gate must already know which map to use
         for decomp_gate_ids in instruction_ids:
